@@ -21,7 +21,7 @@ import time
 from hypothesis import strategies as st
 
 ENDS = ['NONE', 'CONTINUE', 'FAIL_AND_CONTINUE', 'SKIP', 'REPEAT', 'STOP', 'FAIL_SUBTEST', 'INVALID', 'INVALID_FALSE',
-        'INVALID_ZERO', 'INVALID_EMPTY', 'RAISE_A', 'RAISE_B', 'RAISE_O', 'BLOCK']
+        'INVALID_ZERO', 'INVALID_EMPTY', 'RAISE_A', 'RAISE_A2', 'RAISE_B', 'RAISE_O', 'BLOCK']
 INVALID_VALUES = {'INVALID': 42, 'INVALID_FALSE': False, 'INVALID_ZERO': 0, 'INVALID_EMPTY': ''}
 CONDS = ['ALL', 'ANY', 'NOT_ANY', 'NOT_ALL']
 NRES = 4
@@ -152,7 +152,7 @@ def _behaviour(draw, meas, in_subtest, timeout_phase, simple=False):
   else:
     end = _weighted(draw, [('NONE', 22), ('CONTINUE', 8), ('FAIL_AND_CONTINUE', 6), ('SKIP', 4), ('REPEAT', 4), ('STOP', 3),
                            ('FAIL_SUBTEST', 8 if in_subtest else 1), ('INVALID', 1), ('INVALID_FALSE', 1), ('INVALID_ZERO', 1),
-                           ('INVALID_EMPTY', 1), ('RAISE_A', 2), ('RAISE_B', 1), ('RAISE_O', 2)])
+                           ('INVALID_EMPTY', 1), ('RAISE_A', 2), ('RAISE_A2', 1), ('RAISE_B', 1), ('RAISE_O', 2)])
   sets = {}
   for name in meas:
     v = _weighted(draw, [('p', 7), ('f', 2), (None, 1)])
@@ -389,6 +389,10 @@ class ExcA(Exception):
   pass
 
 
+class ExcA2(ExcA):
+  """A subclass of a listed failure exception is a failure exception too (isinstance, like an except clause)."""
+
+
 class ExcB(Exception):
   pass
 
@@ -483,6 +487,8 @@ def _mk_body(node, ctx, htf):
       return INVALID_VALUES[end]
     if end == 'RAISE_A':
       raise ExcA('boom A p%d' % pid)
+    if end == 'RAISE_A2':
+      raise ExcA2('boom A2 p%d' % pid)
     if end == 'RAISE_B':
       raise ExcB('boom B p%d' % pid)
     if end == 'RAISE_O':
